@@ -572,7 +572,7 @@ class Program:
             self.targets[t] = d
             _canonical_upvars(d["fns"], known_params)
             for _round in range(3):
-                erep = expandmod.expand_all(d["fns"]) if EXPAND else {}
+                erep = expandmod.expand_all(d["fns"], known) if EXPAND else {}
                 for k, v in erep.items():
                     self.expanded.setdefault(k, []).extend(v)
                 rep = inlinemod.inline_all(d["fns"], known)
